@@ -430,6 +430,23 @@ def packChunk(msg):
     lines.append(b'\r\n')
     return (b''.join(lines))
 
+def findEol(raw, eols):
+    """
+    Returns duple (index, eol) of the eol in eols that occurs earliest in raw
+    bytearray. When two eols start at the same index the one first in eols wins
+    so list CRLF before CR.
+    Returns (-1, None) when none of eols is in raw.
+    """
+    index = -1
+    found = None
+    for eol in eols:
+        i = raw.find(eol)
+        if i >= 0 and (index < 0 or i < index):
+            index = i
+            found = eol
+    return (index, found)
+
+
 def parseLine(raw, eols=(CRLF, LF, CR ), kind="event line"):
     """
     Generator to parse  line from raw bytearray
@@ -444,10 +461,7 @@ def parseLine(raw, eols=(CRLF, LF, CR ), kind="event line"):
     Raise error if eol not found before MAX_LINE_SIZE
     """
     while True:
-        for eol in eols:  # loop over eols unless found
-            index = raw.find(eol)  # not found index == -1
-            if index >= 0:
-                break
+        index, eol = findEol(raw, eols)  # earliest eol, index == -1 if not found
 
         if index < 0:  # not found
             if len(raw) > MAX_LINE_SIZE:
@@ -476,10 +490,7 @@ def parseLeader(raw, eols=(CRLF, LF), kind="leader header line", headers=None):
     """
     headers = headers if headers is not None else cimdict()
     while True:  # loop until entire heading indicated by empty line
-        for eol in eols:  # loop over eols unless found
-            index = raw.find(eol)  # not found index == -1
-            if index >= 0:
-                break
+        index, eol = findEol(raw, eols)  # earliest eol, index == -1 if not found
 
         if index < 0:  # not found
             if len(raw) > MAX_LINE_SIZE:
